@@ -56,7 +56,7 @@ func midpoint_energy(x__10 float64, y__11 float64) float64 {
     var t13 float64 = x__10 * x__10
     var t14 float64 = y__11 * y__11
     var sum__12 float64 = t13 + t14
-    ret24 = sum__12 / 2
+    ret24 = sum__12 / 2.0
     return ret24
 }
 
@@ -65,7 +65,7 @@ func main0() struct{} {
     var start32__13 float32 = 1.25
     var end32__14 float32 = 5.75
     var half__15 float32 = 0.5
-    var scale__16 float32 = 2
+    var scale__16 float32 = 2.0
     var mid32__17 float32 = lerp32(start32__13, end32__14, half__15)
     var neg_end32__18 float32 = -end32__14
     var ratio32__19 float32 = end32__14 / scale__16
@@ -78,7 +78,7 @@ func main0() struct{} {
     var t15 float64 = energy__24 + dy__22
     var t16 float64 = dx__21 * quarter__23
     var adjusted__26 float64 = t15 - t16
-    var threshold__27 float64 = 4
+    var threshold__27 float64 = 4.0
     var less64__28 bool = adjusted__26 < threshold__27
     show32("mid32=", mid32__17)
     show32("neg_end32=", neg_end32__18)
